@@ -15,3 +15,7 @@ Definition needs_new (broken shutdown reuse : bool) : bool := (broken || (shutdo
 
 (* get_memmapping_executor asks to reuse the executor when ... *)
 Definition args_reuse (args_none args_equal : bool) : bool := (args_none || args_equal).
+
+(* the executor that replaces one which cannot be reused (broken, shut down, other arguments) is built with the requested
+   max_workers on every path (no reassignment of max_workers in that branch) *)
+Definition replacement_size_is_requested : bool := true.
